@@ -6,6 +6,18 @@
   raw   : the same files with corrupted contents / headers (flipped bytes in hash tables, entsize 0 or not dividing,
           wrong link targets, missing terminators, truncation) → library vs model, errors included (correspondence only)
   hash  : elf_hash / gnu_hash on crafted and random names vs the standard's 32-bit functions and the T3 translation
+  utf8  : bytes.decode('utf-8', errors='replace') (CPython's codec, what StringTableSection.get_string applies) vs the Lean
+          `utf8Replace` (Unicode 15 §3.9) on crafted ill-formed sequences and random bytes; names that are not valid UTF-8 also
+          occur in the tables of the tab / file streams (reported names, by-name lookups on the decoded names)
+  file  : the same abstract tables inside an abstract ELF image (C01's ElfDesc, assembled by the Lean Spec assembler): sections in
+          random order and position (a table before or after the table it links to), gaps, slack after the tables, sections
+          sharing a name, the section-name table shared with .dynstr, compressed-flagged tables, several index tables; observed
+          through ELFFile.get_section(i) AND get_section_by_name(name) on fresh file objects; `wf` = the Spec's predicates on the
+          description (hypotheses of the whole-file theorems), never a predicate on the bytes
+  link  : abstract images whose sh_link values are arbitrary (wrong type: NULL / PROGBITS / NOBITS / STRTAB / SUNW_LDYNSYM / the
+          section itself; out of range: beyond the file, straddling its end, stray bytes inside it; nested: a hash table over a
+          symbol table whose own link is bad; index tables with any link): every section is constructed by the library and by the
+          model; the error class the bad-link theorems prescribe is compared with the library wherever they decide
 """
 import io, json
 from common import run_impl, canon, hx, rnd_uint, rnd_bytes, BOUNDARY
@@ -16,8 +28,13 @@ RULE = ('tab: symbol tables of 0..300 (quick) / ..4000 (thorough) entries with d
         'shared string-table entries; SysV tables for nbucket in {1,2,3,5,17,n,2n+1,1000}; GNU tables over nbuckets, symoffset '
         '(1..n), bloom size/shift, extra bloom bits (false positives); queries: every present name (capped) plus absent names '
         'colliding in SysV bucket, GNU bucket, full GNU hash (33a+b families) and hash|1, prefixes/extensions, names with NUL. '
-        'Non-trivial = distinct (table, query) evaluations.')
+        'Names that are not valid UTF-8 (invalid start bytes, truncated / overlong / surrogate / > U+10FFFF sequences) in ~8% of the '
+        'name pool, queried through their decoded form. file: the tables x ElfDesc container (section order shuffled, gaps {0,1,3,8,17}, '
+        'sh/ph entry sizes +0/8, slack after tables, duplicate names, shared name table, SHF_COMPRESSED flag, machine classes, Solaris OSABI, '
+        'ET_CORE), by index and by name. link: one bad link scenario per image (see module doc). utf8: crafted boundary sequences of '
+        'Table 3-7 and random bytes. Non-trivial = distinct (table, query) evaluations.')
 ASSUMPTIONS = ['io.BytesIO read/seek/tell semantics', 'struct.unpack for <>BHIQ', 'str.encode/bytes.decode are mutually inverse on valid UTF-8',
+               "bytes.decode('utf-8', errors='replace') substitutes U+FFFD for maximal subparts (Unicode 15 3.9); compared with the Lean utf8Replace on every run",
                'section header parsing (C01/C02) delivers sh_offset/sh_size/sh_entsize/sh_link/sh_type as encoded',
                'float division H1/arch_bits is exact for H1 < 2**32']
 
@@ -50,7 +67,40 @@ NONASCII = ['é', 'ß', 'Ω', 'ж', '日本', '語', '€', '𝔘', '😀', '\u0
 ALPHA = 'abcdefghijklmnopqrstuvwxyzABCDEFGHIJKLMNOPQRSTUVWXYZ0123456789_.$@'
 
 
-def rnd_name(rng):
+BAD_UTF8 = [b'\xff', b'\x80', b'\xbf', b'\xc0\x80', b'\xc1\xbf', b'\xc3', b'\xc3(', b'\xe2\x82', b'\xe2(\xa1', b'\xe2\x82(', b'\xe0\x9f\xbf',
+            b'\xe0\xa0', b'\xed\xa0\x80', b'\xed\xbf\xbf', b'\xed\x9f', b'\xf0\x8f\xbf\xbf', b'\xf0\x9f\x98', b'\xf0\x9f', b'\xf0', b'\xf0\x9f\x98(',
+            b'\xf4\x90\x80\x80', b'\xf4\x8f\xbf', b'\xf5\x80\x80\x80', b'\xf8\x88\x80\x80\x80', b'\xfe', b'\xef\xbf', b'\xef\xbf\xbd\xff']
+
+
+def rnd_bad_utf8(rng):
+    """a NUL-free byte string that is (almost always) not valid UTF-8"""
+    parts = []
+    for _ in range(rng.choice([1, 1, 2, 3])):
+        r = rng.random()
+        if r < 0.5:
+            parts.append(rng.choice(BAD_UTF8))
+        elif r < 0.7:
+            parts.append(bytes(rng.randrange(0x80, 0x100) for _ in range(rng.randrange(1, 5))))
+        elif r < 0.85:
+            parts.append(rng.choice(NONASCII).encode('utf-8')[:-1])              # a truncated sequence
+        else:
+            parts.append(bytes(rng.randrange(1, 0x100) for _ in range(rng.randrange(1, 6))))
+        if rng.random() < 0.5:
+            parts.append(''.join(rng.choice(ALPHA + 'é€😀') for _ in range(rng.randrange(1, 4))).encode('utf-8'))
+    return b''.join(parts)
+
+
+def is_utf8(b):
+    try:
+        b.decode('utf-8')
+        return True
+    except UnicodeDecodeError:
+        return False
+
+
+def rnd_name(rng, bad=0.08):
+    if rng.random() < bad:
+        return rnd_bad_utf8(rng)
     r = rng.random()
     if r < 0.08:
         return b''
@@ -160,13 +210,11 @@ def gen_case(ctx, rng, big=False):
     for _ in range(6):
         qs.add(rnd_name(rng))
     qs.add(b'')
-
-    def is_utf8(b):
-        try:
-            b.decode('utf-8')
-            return True
-        except UnicodeDecodeError:
-            return False
+    # names that are not valid UTF-8 are looked up by what Python reports for them (and by U+FFFD alone)
+    for nm in present:
+        if not is_utf8(nm):
+            qs.add(nm.decode('utf-8', errors='replace').encode('utf-8'))
+            qs.add('\ufffd'.encode('utf-8'))
     c['queries'] = [hx(q) for q in sorted(qs) if is_utf8(q)]
     c['align'] = rng.choice([1, 4, 8, 16])
     return c
@@ -319,10 +367,9 @@ def check_property(c, r, impl, sg):
             want(key + '_init', None, impl.get(key + '_init'))
             want(key + '.get_number_of_symbols', ex['count'], impl.get(key + '_count'))
             for q, eq, got in zip(c['queries'], ex['queries'], impl.get(key, [])):
-                cands = [ex['symbols'][i] for i in eq[key]]
-                ok = ('ok' in got) and ((got['ok'] is None and not cands) or (got['ok'] is not None and got['ok'] in cands))
-                if not ok:
-                    bad.append(('%s.get_symbol(%s)' % (key, q), cands or None, got))
+                why = hash_verdict(ex, eq, key, got)
+                if why is not None:
+                    bad.append(('%s.get_symbol(%s)' % (key, q), why, got))
     if wf.get('shndx') and 'shndx' in ex:
         for n, got in zip(sg, impl.get('shndx', [])):
             want('get_section_index(%d)' % n, ex['shndx'][n], got)
@@ -332,20 +379,20 @@ def check_property(c, r, impl, sg):
     return bad
 
 
-def as_str(x):
-    """the model carries names as raw bytes; Python shows them through bytes.decode('utf-8', errors='replace')
-    (CPython's codec is in the trusted base): apply it to the model's names before comparing"""
-    if isinstance(x, dict):
-        if set(x) == {'b'}:
-            return {'b': bytes.fromhex(x['b']).decode('utf-8', errors='replace').encode('utf-8').hex()}
-        return {k: as_str(v) for k, v in x.items()}
-    if isinstance(x, list):
-        return [as_str(v) for v in x]
-    return x
+def hash_verdict(ex, eq, key, got):
+    """None when `got` is what the property allows for this query, else the expectation.  `eq[key]`: the hashed symbols whose
+    name IS the query (one of them must be returned); `eq[key+'_may']`: those REPORTED under it (names that are not valid UTF-8
+    are reported through U+FFFD and hashed by their bytes: finding them is not required, returning one is sound)."""
+    must = [ex['symbols'][i] for i in eq[key]]
+    may = [ex['symbols'][i] for i in eq[key + '_may']]
+    if 'ok' not in got:
+        return must or None
+    if got['ok'] is None:
+        return must if must else None
+    return None if got['ok'] in may else (may or None)
 
 
 def diff_model(impl, model):
-    model = as_str(model)
     bad = []
     for k in sorted(set(impl) | set(model)):
         if impl.get(k) != model.get(k):
@@ -423,6 +470,7 @@ def run_tab(ctx):
                 raise RuntimeError('spec builder output fails its own well-formedness predicate %s on %s' % (k, json.dumps(c)[:400]))
         ctx.out.count('tab:n=%s' % (r['n'] if r['n'] < 8 else ('8-99' if r['n'] < 100 else '100+')))
         ctx.out.count('tab:cls%d:%s' % (c['cls'], 'le' if c['le'] else 'be'))
+        ctx.out.count('tab:names:%s' % ('all-utf8' if r.get('utf8') else 'some-not-utf8'))
         case = {'ast': c, 'mut': None}
         viol, info = eval_case(ctx, case, r)
         nq = len(c['queries']) * (1 + ('sysv' in r) + ('gnu' in r)) + r['n']
@@ -555,9 +603,530 @@ def run_hash(ctx):
             ctx.out.violation('correspondence', 'hash', case, got=[e, g], model=[r['elf_model'], r['gnu_model']])
 
 
+# --------------------------------------------------------------------------- utf8: the codec vs the Lean `utf8Replace`
+def utf8_names(ctx, rng):
+    names = list(BAD_UTF8) + [b'', b'a', 'é'.encode(), '€'.encode(), '😀'.encode(), b'\xef\xbf\xbd']
+    # every boundary of Table 3-7: lead byte x second byte at the edges of its range, full and truncated
+    for lead in (0x7f, 0x80, 0xbf, 0xc0, 0xc1, 0xc2, 0xdf, 0xe0, 0xe1, 0xec, 0xed, 0xee, 0xef, 0xf0, 0xf1, 0xf3, 0xf4, 0xf5, 0xf7, 0xf8, 0xff):
+        for b1 in (0x7f, 0x80, 0x8f, 0x90, 0x9f, 0xa0, 0xbf, 0xc0):
+            for tail in (b'', b'\x80', b'\x80\x80', b'\xbf\xbf\x41', b'\x41', b'\x80\x41', b'\xc3'):
+                names.append(bytes([lead, b1]) + tail)
+    for _ in range(ctx.budget(2500, 30000)):
+        r = rng.random()
+        if r < 0.4:
+            names.append(rnd_bad_utf8(rng))
+        elif r < 0.6:
+            names.append(rnd_name(rng, bad=0))
+        elif r < 0.8:
+            names.append(bytes(rng.choice([0x41, 0x7f, 0x80, 0x9f, 0xa0, 0xbf, 0xc2, 0xdf, 0xe0, 0xed, 0xef, 0xf0, 0xf4, 0xf5, 0xff])
+                               for _ in range(rng.randrange(1, 9))))
+        else:
+            names.append(rnd_bytes(rng, rng.choice([1, 2, 3, 4, 5, 8, 17])))
+    return names
+
+
+def utf8_judge(out, n, r):
+    case = {'name': hx(n)}
+    got = n.decode('utf-8', errors='replace').encode('utf-8')
+    ok = is_utf8(n)
+    # correspondence: the codec in the trusted base IS the function the theorems are about
+    if hx(got) != r['replace'] or ok != r['valid']:
+        out.violation('correspondence', 'utf8', case, got=[hx(got), ok], model=[r['replace'], r['valid']])
+    return case
+
+
+def run_utf8(ctx):
+    rng = ctx.rng('utf8')
+    names = utf8_names(ctx, rng)
+    replies = ctx.driver.ask_many([{'p': 'C03', 'k': 'utf8', 'name': hx(n)} for n in names])
+    for n, r in zip(names, replies):
+        if 'fatal' in r:
+            raise RuntimeError('driver: %s' % r['fatal'])
+        ctx.out.case(utf8_judge(ctx.out, n, r))
+        ctx.out.count('utf8:%s' % ('valid' if r['valid'] else 'ill-formed'))
+
+
+# --------------------------------------------------------------------------- whole abstract images (C01's ElfDesc)
+CLASS_MACHINES = {
+    'EM_SPARC': ['EM_SPARC', 'EM_386', 'EM_68K', 'EM_S390', 'EM_SH', 'EM_CRIS', 'EM_M32R', 'EM_MN10300'],
+    'EM_MIPS': ['EM_MIPS'], 'EM_MIPS_RS3_LE': ['EM_MIPS_RS3_LE'], 'EM_ARM': ['EM_ARM'], 'EM_X86_64': ['EM_X86_64'],
+    'EM_AARCH64': ['EM_AARCH64'], 'EM_RISCV': ['EM_RISCV'],
+}
+SYMTYPE = {'SHT_SYMTAB': 2, 'SHT_DYNSYM': 11, 'SHT_SUNW_LDYNSYM': 0x6ffffff3}
+
+
+def mclass_of(e_machine):
+    from elftools.elf.enums import ENUM_E_MACHINE
+    names = [k for k, v in ENUM_E_MACHINE.items() if v == e_machine and k != '_default_']
+    for cl, ms in CLASS_MACHINES.items():
+        if any(n in ms for n in names):
+            return cl
+    return 'default'
+
+
+def R(**kw):
+    return {'r': [[k, v] for k, v in kw.items()]}
+
+
+def S(name, type, body=None, link=None, flags=0, info=0, entsize=0, size=None):
+    return dict(name=name, type=type, body=body, link=link, flags=flags, info=info, entsize=entsize, size=size)
+
+
+def table_sections(rng, c, r):
+    """the sections holding the tables of case `c` (contents `r` from the Spec encoders): dict key -> section"""
+    def slack():
+        return rnd_bytes(rng, rng.choice([0, 0, 0, 1, 5, 16]))
+    t = {}
+    t['str'] = S(b'.dynstr', 3, bytes.fromhex(r['strtab']) + rng.choice([b'', b'', b'tail\0', b'\xff']), flags=2)
+    symbody = bytes.fromhex(r['symtab'])
+    t['sym'] = S(rng.choice([b'.dynsym', b'.dynsym', b'.symtab']), SYMTYPE[c['symtype']], symbody + slack(), link=t['str'], flags=2,
+                 info=1, entsize=r['entsize'], size=len(symbody))
+    if 'sysv' in r:
+        t['sysv'] = S(b'.hash', 5, bytes.fromhex(r['sysv']) + slack(), link=t['sym'], flags=2, entsize=4)
+    if 'gnu' in r:
+        t['gnu'] = S(b'.gnu.hash', 0x6ffffff6, bytes.fromhex(r['gnu']) + slack(), link=t['sym'], flags=2)
+    if 'shndx' in r:
+        t['shndx'] = S(b'.symtab_shndx', 18, bytes.fromhex(r['shndx']) + slack(), link=t['sym'], entsize=4)
+    if 'syminfo' in r:
+        body = bytes.fromhex(r['syminfo'])
+        t['syminfo'] = S(b'.SUNW_syminfo', 0x6ffffffc, body + slack(), link=t['sym'], flags=2, entsize=4, size=len(body))
+    return t
+
+
+def lay_out(rng, cls, le, items, shared_names=None, extra_hdr=None):
+    """An abstract ELF image (the JSON of Spec.ElfDesc) of the sections `items` (shuffled here), each body anywhere in the
+    file.  `link` of an item is another item (→ its index) or a raw number.  Returns (desc, index-of-item function)."""
+    shsz, phsz, ehsize = (40, 32, 52) if cls == 32 else (64, 56, 64)
+
+    def X():
+        return rnd_uint(rng, cls)
+    null = S(b'', 0)
+    items = list(items)
+    if shared_names is None:
+        items.append(S(b'.shstrtab', 3, b''))
+    rng.shuffle(items)
+    secs = [null] + items
+    names = bytearray(b'\0')
+    noff = {b'': 0}
+    for t in secs:
+        if t['name'] not in noff:
+            noff[t['name']] = len(names)
+            names += t['name'] + b'\0'
+    if shared_names is not None:                # the section-name table is also a string table under test
+        base = len(shared_names['body'])
+        shared_names['body'] = shared_names['body'] + bytes(names)
+        noff = {k: v + base for k, v in noff.items()}
+        shstr = shared_names
+    else:
+        shstr = [t for t in secs if t['name'] == b'.shstrtab'][0]
+        shstr['body'] = bytes(names)
+    index = {id(t): i for i, t in enumerate(secs)}
+    nseg = rng.choice([0, 0, 1, 2])
+    shentsize = shsz + rng.choice([0, 0, 8])
+    phentsize = phsz + rng.choice([0, 0, 8])
+    regions = ['sh', 'ph'] + [('body', i) for i, t in enumerate(secs) if t['body']]
+    rng.shuffle(regions)
+    pos = ehsize + rng.choice([0, 0, 4])
+    shoff = phoff = 0
+    for g in regions:
+        pos += rng.choice([0, 0, 0, 1, 3, 8, 17])
+        if g == 'sh':
+            shoff = pos
+            pos += shentsize * len(secs)
+        elif g == 'ph':
+            phoff = pos
+            pos += phentsize * nseg
+        else:
+            secs[g[1]]['offset'] = pos
+            pos += len(secs[g[1]]['body'])
+    for t in secs:
+        t.setdefault('offset', 0 if t is null else rng.choice([pos, 0, ehsize, pos + 5]))
+    segs = []
+    for _ in range(nseg):
+        f = dict(p_type=rng.choice([1, 1, 4, 6, 0x6474e551]), p_offset=X(), p_vaddr=X(), p_paddr=X(), p_filesz=X(), p_memsz=X(),
+                 p_flags=rnd_uint(rng, 32), p_align=X())
+        order = (['p_type', 'p_offset', 'p_vaddr', 'p_paddr', 'p_filesz', 'p_memsz', 'p_flags', 'p_align'] if cls == 32 else
+                 ['p_type', 'p_flags', 'p_offset', 'p_vaddr', 'p_paddr', 'p_filesz', 'p_memsz', 'p_align'])
+        segs.append(R(**{k: f[k] for k in order}))
+    machine = rng.choice([62, 62, 3, 40, 183, 243, 21, 8])
+    osabi = rng.choice([0, 0, 0, 3, 6])
+    e_type = rng.choice([1, 2, 3, 3, 4])
+
+    def linkno(t):
+        if t['link'] is None:
+            return 0
+        return t['link'] if isinstance(t['link'], int) else index[id(t['link'])]
+    desc = {
+        'cls': cls, 'le': le, 'mclass': mclass_of(machine), 'solaris': osabi == 6, 'core': e_type == 4,
+        'ehdr': R(EI_VERSION=1, EI_OSABI=osabi, EI_ABIVERSION=0, e_type=e_type, e_machine=machine, e_version=1,
+                  e_entry=X(), e_flags=rnd_uint(rng, 32), e_ehsize=ehsize),
+        'shoff': shoff, 'phoff': phoff, 'shentsize': shentsize, 'phentsize': phentsize,
+        'sections': [{'name': hx(t['name']), 'nameOff': noff[t['name']],
+                      'hdr': R(sh_type=t['type'], sh_flags=t['flags'], sh_addr=0 if t is null else X(), sh_offset=t['offset'],
+                               sh_size=t['size'] if t['size'] is not None else len(t['body'] or b''), sh_link=linkno(t),
+                               sh_info=t['info'], sh_addralign=0 if t is null else rng.choice([1, 2, 4, 8]),
+                               sh_entsize=t['entsize']),
+                      'body': hx(t['body']) if t['body'] is not None else None} for t in secs],
+        'segments': segs, 'shstrndx': index[id(shstr)],
+    }
+    return desc, (lambda t: index[id(t)]), pos
+
+
+def build_file_request(rng, c, r):
+    """the `file` request of case `c`: the tables inside a random abstract image"""
+    t = table_sections(rng, c, r)
+    items = list(t.values())
+    meta = {}
+    if rng.random() < 0.5:
+        items.append(S(b'.filler', 1, bytes(range(1, rng.choice([2, 9, 40])))))
+    if rng.random() < 0.3:
+        items.append(S(b'.bss', 8, None, flags=3, size=rng.choice([0, 16, 1 << 20])))
+    dup = rng.random() < 0.25
+    if dup:                                     # another section bearing a table's name (the later one is found by name)
+        victim = rng.choice(list(t.values()))
+        items.append(S(victim['name'], rng.choice([1, 7]), b'\x05\x06\x07'))
+        meta['dup'] = True
+    if 'shndx' in t and rng.random() < 0.5:     # more index tables: one for another table, one more for ours
+        items.append(S(b'.symtab_shndx', 18, b'\1\2\3\4' * 2, link=t['str'], entsize=4))
+        if rng.random() < 0.5:
+            items.append(S(b'.symtab_shndx', 18, t['shndx']['body'], link=t['sym'], entsize=4))
+        meta['more-shndx'] = True
+    for k in ('sym', 'str'):
+        if len(t[k]['body']) >= 24 and rng.random() < 0.05:
+            t[k]['flags'] |= 0x800              # SHF_COMPRESSED: the table classes read the raw bytes regardless
+            meta['compressed'] = True
+    share = rng.random() < 0.2
+    meta['shared-names'] = share
+    desc, idx_of, _ = lay_out(rng, c['cls'], c['le'], items, shared_names=t['str'] if share else None)
+    idx = {k: idx_of(v) for k, v in t.items()}
+    n = r['n']
+    rq = dict(c)
+    rq.update(k='file', desc=desc, tail=rng.choice([0, 0, 5]), idx=idx, get=sorted({0, n // 2, max(0, n - 1), n, n + 3}),
+              secnames=[hx(x) for x in sorted({v['name'] for v in t.values()} | {b'.nonesuch', b''})])
+    meta['order'] = 'sym-before-str' if idx['sym'] < idx['str'] else 'str-before-sym'
+    return rq, meta
+
+
+def csym_list(it):
+    return [csym(s) for s in it]
+
+
+def observe_section(sec, qstr, gets):
+    """everything observed of a section object; shaped like the driver's `observeObj`"""
+    from elftools.elf.sections import SymbolTableSection, SymbolTableIndexSection, SUNWSyminfoTableSection
+    from elftools.elf.hash import ELFHashSection, GNUHashSection
+    kind = type(sec).__name__
+    if isinstance(sec, SymbolTableSection):
+        def byname(q):
+            x = sec.get_symbol_by_name(q)
+            return None if x is None else csym_list(x)
+        num = run_impl(sec.num_symbols)
+        # disturbance: a walk abandoned after its first symbol BEFORE the first lookup by name (the name map must not be
+        # taken from a walk that was never finished); the complete walk is observed after the lookups
+        it = sec.iter_symbols()
+        try:
+            next(it, None)
+        except Exception:       # noqa: BLE001 — the observed calls below report the error
+            pass
+        del it
+        found = [run_impl(lambda q=q: byname(q)) for q in qstr]
+        return {'kind': kind, 'num': num, 'byname': found, 'symbols': run_impl(lambda: csym_list(sec.iter_symbols())),
+                'get': [run_impl(lambda n=n: csym(sec.get_symbol(n))) for n in gets]}
+    if isinstance(sec, SymbolTableIndexSection):
+        return {'kind': kind, 'symboltable': sec.symboltable,
+                'get': [run_impl(lambda n=n: canon(sec.get_section_index(n))) for n in gets]}
+    if isinstance(sec, SUNWSyminfoTableSection):
+        return {'kind': kind, 'num': run_impl(sec.num_symbols), 'symbols': run_impl(lambda: csym_list(sec.iter_symbols()))}
+    if isinstance(sec, (ELFHashSection, GNUHashSection)):
+        def look(q):
+            x = sec.get_symbol(q)
+            return None if x is None else csym(x)
+        return {'kind': kind, 'count': run_impl(sec.get_number_of_symbols), 'lookup': [run_impl(lambda q=q: look(q)) for q in qstr]}
+    return {'kind': kind}
+
+
+def observe_index(data, i, qstr, gets):
+    from elftools.elf.elffile import ELFFile
+    return observe_section(ELFFile(io.BytesIO(data)).get_section(i), qstr, gets)
+
+
+def observe_name(data, name, qstr, gets):
+    """ELFFile(BytesIO(data)).get_section_by_name(name) on a fresh file object"""
+    from elftools.elf.elffile import ELFFile
+    sec = ELFFile(io.BytesIO(data)).get_section_by_name(name.decode('utf-8'))
+    return {'kind': None} if sec is None else observe_section(sec, qstr, gets)
+
+
+def companion_of(data, symidx):
+    """how a client finds the extended-index table of symbol table #symidx (scripts/readelf.py)"""
+    from elftools.elf.elffile import ELFFile
+    from elftools.elf.sections import SymbolTableIndexSection
+    ef = ELFFile(io.BytesIO(data))
+    m = {sec.symboltable: i for i, sec in enumerate(ef.iter_sections()) if isinstance(sec, SymbolTableIndexSection)}
+    return m.get(symidx)
+
+
+def expect_violations(rq, r, key, got):
+    """where `got` (observation of the section holding table `key`) differs from what the property prescribes"""
+    ex = r['expect']
+    bad = []
+
+    def want(what, exp, g):
+        if g != {'ok': exp}:
+            bad.append((what, exp, g))
+    if 'ok' not in got:
+        return [('get_section', 'a section object', got)]
+    o = got['ok']
+    kinds = {'sym': 'SymbolTableSection', 'sysv': 'ELFHashSection', 'gnu': 'GNUHashSection', 'syminfo': 'SUNWSyminfoTableSection',
+             'shndx': 'SymbolTableIndexSection'}
+    if o.get('kind') != kinds[key]:
+        return [('class', kinds[key], o.get('kind'))]
+    if key == 'sym':
+        want('num_symbols', ex['count'], o['num'])
+        want('iter_symbols', ex['symbols'], o['symbols'])
+        for q, eq, g in zip(rq['queries'], ex['queries'], o['byname']):
+            want('get_symbol_by_name(%s)' % q, [ex['symbols'][i] for i in eq['byname']] or None, g)
+        for n, g in zip(rq['get'], o['get']):
+            if n < ex['count']:
+                want('get_symbol(%d)' % n, ex['symbols'][n], g)
+    elif key in ('sysv', 'gnu'):
+        want('get_number_of_symbols', ex['count'], o['count'])
+        for q, eq, g in zip(rq['queries'], ex['queries'], o['lookup']):
+            why = hash_verdict(ex, eq, key, g)
+            if why is not None:
+                bad.append(('%s.get_symbol(%s)' % (key, q), why, g))
+    elif key == 'syminfo':
+        want('syminfo.num_symbols', len(ex['syminfo']), o['num'])
+        want('syminfo.iter_symbols', ex['syminfo'], o['symbols'])
+    elif key == 'shndx':
+        if o['symboltable'] != r['linkOf']['shndx']:
+            bad.append(('symboltable', r['linkOf']['shndx'], o['symboltable']))
+        for n, g in zip(rq['get'], o['get']):
+            if n < len(ex['shndx']):
+                want('get_section_index(%d)' % n, ex['shndx'][n], g)
+    return bad
+
+
+def judge_file(out, rq, r):
+    """all verdicts of one `file` case (by index, by every queried section name, the companion scan)"""
+    data = bytes.fromhex(r['bytes'])
+    qstr = [bytes.fromhex(q).decode('utf-8') for q in rq['queries']]
+    gets = rq['get']
+    case = {'file': rq}
+    n_viol = len(out.violations)
+
+    def judge(via, key, wf, model, got):
+        if wf:
+            for what, exp, g in expect_violations(rq, r, key, got)[:1]:
+                out.violation('property', 'file', case, via=via, table=key, what=what, expect=exp, got=g)
+                return
+        if got != model:
+            out.violation('correspondence', 'file', case, via=via, table=key, got=got, model=model)
+    for key, model in r['model'].items():
+        if key == 'companion':
+            got = run_impl(lambda: companion_of(data, rq['idx']['sym']))
+            if r['wf']['sym'] and r['wf']['observable'] and got != {'ok': r['companionExpect']}:
+                out.violation('property', 'file', case, via='scan', what='index table of the symbol table', expect=r['companionExpect'], got=got)
+            elif got != model:
+                out.violation('correspondence', 'file', case, via='scan', got=got, model=model)
+            continue
+        got = run_impl(lambda: observe_index(data, rq['idx'][key], qstr, gets))
+        judge('index', key, r['wf'].get(key), model, got)
+    key_of = {v: k for k, v in rq['idx'].items()}
+    for k, h in enumerate(rq['secnames']):
+        name = bytes.fromhex(h)
+        got = run_impl(lambda: observe_name(data, name, qstr, gets))
+        idx = r['indexOfName'][k]
+        ok = r['wf']['sym'] and r['wf']['observable']          # the hypotheses of the by-name theorems (wfZ, every header decodes)
+        if ok and idx is None:
+            if got != {'ok': {'kind': None}}:
+                out.violation('property', 'file', case, via='name', name=h, what='absent name', expect=None, got=got)
+                continue
+        key = key_of.get(idx)
+        if ok and key is not None and r['wf'].get(key):
+            judge('name:' + h, key, True, r['modelByName'][k], got)
+        elif got != r['modelByName'][k]:
+            out.violation('correspondence', 'file', case, via='name', name=h, got=got, model=r['modelByName'][k])
+    return len(out.violations) - n_viol
+
+
+def run_file(ctx):
+    rng = ctx.rng('file')
+    nwf = 0
+    for _ in range(ctx.budget(110, 900)):
+        c = gen_case(ctx, rng)
+        if len(c['syms']) > 40:
+            c['syms'] = c['syms'][:40]
+            if 'shndx' in c: c['shndx'] = c['shndx'][:40]
+            if 'syminfo' in c: c['syminfo'] = c['syminfo'][:40]
+            if 'gnu' in c: c['gnu']['symoffset'] = min(c['gnu']['symoffset'], 40)
+        r0 = ctx.driver.ask(c)
+        if 'fatal' in r0:
+            raise RuntimeError('driver: %s' % r0['fatal'])
+        rq, meta = build_file_request(rng, c, r0)
+        r = ctx.driver.ask(rq)
+        if 'fatal' in r:
+            raise RuntimeError('driver: %s on %s' % (r['fatal'], json.dumps(rq)[:300]))
+        if 'bytes' not in r:
+            ctx.out.count('file:not-encodable')
+            continue
+        for k, v in r['wf'].items():
+            ctx.out.count('file:%s:%s' % (k, 'wf' if v else 'not-wf'))
+        if not all(r['wf'].values()):
+            # every generated image is in the theorems' domain: the Spec predicates must hold of what the harness lays out
+            raise RuntimeError('file stream: a generated image fails the Spec well-formedness predicates %s: %s' % (r['wf'], json.dumps(rq)[:600]))
+        nwf += 1
+        for k, v in meta.items():
+            if v:
+                ctx.out.count('file:%s' % (k if v is True else '%s=%s' % (k, v)))
+        ctx.out.count('file:names:%s' % ('all-utf8' if r.get('utf8') else 'some-not-utf8'))
+        for idx in r['indexOfName']:
+            ctx.out.count('file:by-name:%s' % ('absent' if idx is None else 'table' if idx in rq['idx'].values() else 'other-section'))
+        ctx.out.case({'file': hashlib_sha(r['bytes']), 'q': rq['queries'], 'idx': rq['idx']}, nontrivial=r0['n'] > 0)
+        ctx.out.evaluations += len(rq['queries']) * len(r['model']) + len(rq['secnames'])
+        judge_file(ctx.out, rq, r)
+        if ctx.time_left() < (8 if ctx.tier == 'quick' else 300):
+            ctx.out.notes.append('file: stopped early on the time budget')
+            break
+    if nwf == 0:
+        raise RuntimeError('file stream: no description satisfied the Spec well-formedness predicates (vacuous run)')
+
+
+def hashlib_sha(hexstr):
+    import hashlib
+    return hashlib.sha1(hexstr.encode()).hexdigest()[:20]
+
+
+# --------------------------------------------------------------------------- links that are not what the gABI requires
+LINK_SCENARIOS = ['sym-wrong', 'sym-wrong', 'sym-self', 'sym-beyond', 'sym-straddle', 'sym-stray', 'hash-wrong', 'hash-wrong',
+                  'hash-ldynsym', 'hash-beyond', 'nested-wrong', 'nested-beyond', 'shndx-any', 'good']
+
+
+def build_link_request(rng, c, r):
+    """an abstract image with ONE bad-link scenario (or none); returns (request, scenario)"""
+    if not any(k in r for k in ('sysv', 'gnu', 'syminfo')):
+        sc = rng.choice([x for x in LINK_SCENARIOS if x.startswith('sym') or x in ('shndx-any', 'good')])
+    else:
+        sc = rng.choice(LINK_SCENARIOS)
+    t = table_sections(rng, c, r)
+    items = list(t.values())
+    filler = S(b'.filler', 1, bytes(range(1, 30)))
+    nobits = S(b'.bss', 8, None, flags=3, size=64)
+    note = S(b'.note', 7, b'\0' * 12)
+    other_sym = S(b'.symtab2', rng.choice([2, 11]), b'\0' * r['entsize'], link=t['str'], entsize=r['entsize'], size=r['entsize'])
+    items += [filler, nobits, note, other_sym]
+    hashy = [t[k] for k in ('sysv', 'gnu', 'syminfo') if k in t]
+    wrong_for_sym = [0, filler, nobits, note, other_sym] + hashy          # anything but a string table
+    wrong_for_hash = [0, filler, nobits, note, t['str']] + [h for h in hashy]
+    far = None                                                              # out-of-range links are resolved after the layout
+    if sc == 'sym-wrong':
+        t['sym']['link'] = rng.choice(wrong_for_sym)
+        if rng.random() < 0.4:
+            t['sym']['entsize'] = rng.choice([0, 7])                        # the link guard comes first
+    elif sc == 'sym-self':
+        t['sym']['link'] = t['sym']
+    elif sc in ('sym-beyond', 'sym-straddle', 'sym-stray'):
+        far = (t['sym'], sc[4:])
+    elif sc == 'hash-wrong':
+        rng.choice(hashy)['link'] = rng.choice(wrong_for_hash)
+    elif sc == 'hash-ldynsym':
+        t['sym']['type'] = 0x6ffffff3                                      # a hash / syminfo table over SHT_SUNW_LDYNSYM
+    elif sc == 'hash-beyond':
+        far = (rng.choice(hashy), 'beyond')
+    elif sc == 'nested-wrong':
+        t['sym']['link'] = rng.choice(wrong_for_sym[:4])
+    elif sc == 'nested-beyond':
+        far = (t['sym'], 'beyond')
+    elif sc == 'shndx-any':
+        x = t.get('shndx') or S(b'.symtab_shndx', 18, b'\1\0\0\0', entsize=4)
+        if 'shndx' not in t:
+            items.append(x)
+        x['link'] = rng.choice([0, filler, nobits, 999, 0xffffffff, x])
+    if far is not None:
+        far[0]['link'] = 0                                                  # placeholder, patched below
+    desc, idx_of, end = lay_out(rng, c['cls'], c['le'], items)
+    tail = rng.choice([0, 0, 5])
+    if far is not None:
+        sec, how = far
+        shdr = 40 if c['cls'] == 32 else 64
+        n, shoff, es = len(desc['sections']), desc['shoff'], desc['shentsize']
+        size = max(end, shoff + n * es) + tail                              # an upper bound of the assembled length
+        if how == 'beyond':
+            l = (size - shoff) // es + rng.choice([1, 2, 1000, 0xfffffff])
+        elif how == 'straddle':
+            l = max(n, (size - shoff - 1) // es)                            # starts inside the file (or at its end), does not fit
+        else:
+            l = n + rng.choice([0, 1, 2])                                   # right behind the table: stray bytes, if the file goes on
+        l = min(l, 0xffffffff)
+        for k, v in desc['sections'][idx_of(sec)]['hdr']['r']:
+            pass
+        desc['sections'][idx_of(sec)]['hdr']['r'] = [[k, (l if k == 'sh_link' else v)] for k, v in desc['sections'][idx_of(sec)]['hdr']['r']]
+    rq = {'p': 'C03', 'k': 'link', 'desc': desc, 'tail': tail, 'secs': list(range(len(desc['sections'])))}
+    return rq, sc
+
+
+def kind_of_section(data, i):
+    from elftools.elf.elffile import ELFFile
+    from elftools.elf.sections import SymbolTableIndexSection
+    sec = ELFFile(io.BytesIO(data)).get_section(i)
+    if isinstance(sec, SymbolTableIndexSection):
+        return [type(sec).__name__, sec.symboltable]
+    return type(sec).__name__
+
+
+def judge_link(out, rq, r):
+    data = bytes.fromhex(r['bytes'])
+    case = {'link': rq}
+    for row in r['rows']:
+        got = run_impl(lambda: kind_of_section(data, row['sec']))
+        if r['core'] and row['expect'] is not None and got != {'err': row['expect']}:
+            out.violation('property', 'link', case, sec=row['sec'], verdict=row['verdict'], expect={'err': row['expect']}, got=got)
+        elif got != row['model']:
+            out.violation('correspondence', 'link', case, sec=row['sec'], verdict=row['verdict'], got=got, model=row['model'])
+
+
+def run_link(ctx):
+    rng = ctx.rng('link')
+    decided = 0
+    for _ in range(ctx.budget(160, 1500)):
+        c = gen_case(ctx, rng)
+        if len(c['syms']) > 12:
+            c['syms'] = c['syms'][:12]
+            if 'shndx' in c: c['shndx'] = c['shndx'][:12]
+            if 'syminfo' in c: c['syminfo'] = c['syminfo'][:12]
+            if 'gnu' in c: c['gnu']['symoffset'] = min(c['gnu']['symoffset'], 12)
+        c['symtype'] = rng.choice(['SHT_SYMTAB', 'SHT_DYNSYM'])
+        r0 = ctx.driver.ask(c)
+        if 'fatal' in r0:
+            raise RuntimeError('driver: %s' % r0['fatal'])
+        rq, sc = build_link_request(rng, c, r0)
+        r = ctx.driver.ask(rq)
+        if 'fatal' in r:
+            raise RuntimeError('driver: %s on %s' % (r['fatal'], json.dumps(rq)[:300]))
+        if 'bytes' not in r:
+            ctx.out.count('link:not-encodable')
+            continue
+        ctx.out.count('link:%s' % sc)
+        ctx.out.count('link:core:%s' % r['core'])
+        if not r['core']:
+            raise RuntimeError('link stream: a generated image is outside the relaxed domain wfZCore: %s' % json.dumps(rq)[:600])
+        for row in r['rows']:
+            if row['verdict'] and row['verdict'][0] != 'unchecked':
+                ctx.out.count('link:verdict:%s:%s' % (row['verdict'][0], row['expect'] or ('constructs' if 'ok' in row['model'] else 'undecided:' + row['model'].get('err', '?'))))
+                decided += row['expect'] is not None
+        ctx.out.case({'link': hashlib_sha(r['bytes'])})
+        ctx.out.evaluations += len(r['rows']) - 1
+        judge_link(ctx.out, rq, r)
+    if decided == 0:
+        raise RuntimeError('link stream: no link was decided by the bad-link theorems (vacuous run)')
+
+
 def run(ctx):
     run_hash(ctx)
+    run_utf8(ctx)
     run_tab(ctx)
+    run_file(ctx)
+    run_link(ctx)
     run_raw(ctx)
 
 
@@ -572,6 +1141,22 @@ def replay(ctx, payload):
         got = [ELFHashTable.elf_hash(n), GNUHashTable.gnu_hash(n)]
         res.update(impl=got, expect=[r['elf_expect'], r['gnu_expect']], model=[r['elf_model'], r['gnu_model']],
                    fails=(got != [r['elf_expect'], r['gnu_expect']]))
+        return res
+    if v['stream'] in ('utf8', 'file', 'link'):
+        from common import Outcome
+        o = Outcome('C03')
+        if v['stream'] == 'utf8':
+            n = bytes.fromhex(case['name'])
+            utf8_judge(o, n, ctx.driver.ask({'p': 'C03', 'k': 'utf8', 'name': case['name']}))
+        elif v['stream'] == 'file':
+            rq = case['file']
+            judge_file(o, rq, ctx.driver.ask(rq))
+        else:
+            rq = case['link']
+            judge_link(o, rq, ctx.driver.ask(rq))
+        same = [x for x in o.violations if x['kind'] == v['kind']]
+        res.update(violations=[{k: x[k] for k in x if k != 'case'} for x in o.violations[:5]],
+                   fails=bool(same) if v['kind'] == 'property' else bool(o.violations))
         return res
     viol, info = eval_case(ctx, case)
     prop = [x for x in viol if x[0] == 'property']
